@@ -421,6 +421,139 @@ fn canon_hardened(s: &str) -> String {
 }
 
 /// Secret key expressions: xprv / tprv / WIF x origins x derivation steps x wildcards, and whole
+/// Key-expression mixes: every assignment of key-expression kinds (raw, x-only, plain xpub, wildcard,
+/// multipath of two and of three paths, with and without origin) to the key positions of small sane
+/// descriptor templates. The two descriptor parsers must agree on acceptance and on the object, and
+/// whatever object exists must print to a string that parses back to an equal object (directly and,
+/// for segwit / tap scripts, through the miniscript parser of its context).
+fn key_mix_roundtrip(rep: &Report, cen: &mut Census) {
+    use miniscript::descriptor::DescriptorPublicKey as Dpk;
+    let secp = secp256k1::Secp256k1::new();
+    let xpubs: Vec<String> = (0..3u8)
+        .map(|i| {
+            let m = bitcoin::bip32::Xpriv::new_master(bitcoin::Network::Bitcoin, &[20 + i; 32]).unwrap();
+            bitcoin::bip32::Xpub::from_priv(&secp, &m).to_string()
+        })
+        .collect();
+    let raws: Vec<String> = (0..3u8)
+        .map(|i| bitcoin::secp256k1::PublicKey::from_secret_key(&secp, &bitcoin::secp256k1::SecretKey::from_slice(&[40 + i; 32]).unwrap()).to_string())
+        .collect();
+    // kind k at position i
+    let expr = |k: usize, i: usize, tap: bool| -> String {
+        match k {
+            0 => raws[i].clone(),
+            1 => {
+                if tap {
+                    raws[i][2..].to_string()
+                } else {
+                    raws[i].clone()
+                }
+            }
+            2 => xpubs[i].clone(),
+            3 => format!("{}/0/*", xpubs[i]),
+            4 => format!("{}/<0;1>/*", xpubs[i]),
+            5 => format!("[d34db33f/48h]{}/<2;3>/7", xpubs[i]),
+            _ => format!("{}/<0;1;2>/*", xpubs[i]),
+        }
+    };
+    let templates: [(&str, usize, bool); 10] = [
+        ("wpkh(@0)", 1, false),
+        ("pkh(@0)", 1, false),
+        ("sh(wpkh(@0))", 1, false),
+        ("wsh(and_v(v:pk(@0),pk(@1)))", 2, false),
+        ("sh(wsh(or_d(pk(@0),and_v(v:pk(@1),older(5)))))", 2, false),
+        ("wsh(multi(2,@0,@1,@2))", 3, false),
+        ("sh(sortedmulti(1,@0,@1))", 2, false),
+        ("tr(@0,pk(@1))", 2, true),
+        ("tr(@0,and_v(v:pk(@1),pk(@2)))", 3, true),
+        ("tr(@0,{pk(@1),multi_a(1,@1,@2)})", 3, true),
+    ];
+    for (tmpl, n, tap) in templates {
+        let kinds = 7usize;
+        for code in 0..kinds.pow(n as u32) {
+            let mut s = tmpl.to_string();
+            let mut c = code;
+            for i in 0..n {
+                s = s.replace(&format!("@{}", i), &expr(c % kinds, i, tap));
+                c /= kinds;
+            }
+            bump(cen, "key_mix_strings");
+            let mut viol = |class: &str, what: String| {
+                rep.violation(Violation { key: format!("C10|key-mix-{}|{}", class, s), class: format!("key-mix-{}", class), what, case: json!({"descriptor": s}) });
+            };
+            let a = guard(|| Descriptor::<Dpk>::from_str(&s));
+            let b = guard(|| Descriptor::<Dpk>::parse_descriptor(&secp, &s));
+            let objs: Vec<Descriptor<Dpk>> = match (a, b) {
+                (Ok(Ok(x)), Ok(Ok((y, _)))) => {
+                    if x != y {
+                        viol("parsers-differ", format!("from_str gives {} and parse_descriptor gives {}", x, y));
+                    }
+                    vec![x, y]
+                }
+                (Ok(Err(_)), Ok(Err(_))) => {
+                    bump(cen, "key_mix_refused_by_both");
+                    vec![]
+                }
+                (Ok(Ok(x)), Ok(Err(e))) => {
+                    viol("parsers-disagree", format!("from_str accepts, parse_descriptor refuses: {}", e));
+                    vec![x]
+                }
+                (Ok(Err(e)), Ok(Ok((y, _)))) => {
+                    viol("parsers-disagree", format!("parse_descriptor accepts, from_str refuses: {}", e));
+                    vec![y]
+                }
+                (Err(p), _) | (_, Err(p)) => {
+                    viol("panic", p);
+                    vec![]
+                }
+            };
+            for d in objs {
+                bump(cen, "key_mix_objects");
+                let printed = d.to_string();
+                match guard(|| Descriptor::<Dpk>::from_str(&printed)) {
+                    Ok(Ok(back)) => {
+                        if back != d || back.to_string() != printed {
+                            viol("roundtrip-differs", format!("{} parses back to {}", printed, back));
+                        } else {
+                            bump(cen, "key_mix_roundtrips_ok");
+                        }
+                    }
+                    Ok(Err(e)) => viol("printed-form-refused", format!("{} does not parse back: {}", printed, e)),
+                    Err(p) => viol("panic", p),
+                }
+                // the script of the descriptor through the miniscript parser of its context
+                macro_rules! ms_rt {
+                    ($ms:expr, $ctx:ty) => {{
+                        let ms = $ms;
+                        let t = ms.to_string();
+                        bump(cen, "key_mix_miniscripts");
+                        match guard(|| miniscript::Miniscript::<Dpk, $ctx>::from_str(&t)) {
+                            Ok(Ok(back)) => {
+                                if &back != ms {
+                                    viol("miniscript-roundtrip-differs", format!("{} parses back to {}", t, back));
+                                }
+                            }
+                            Ok(Err(e)) => viol("miniscript-printed-form-refused", format!("{} does not parse back: {}", t, e)),
+                            Err(p) => viol("panic", p),
+                        }
+                    }};
+                }
+                match &d {
+                    Descriptor::Wsh(w) => {
+                        ms_rt!(w.as_inner(), miniscript::Segwitv0)
+                    }
+                    Descriptor::Tr(t) => {
+                        for leaf in t.leaves() {
+                            ms_rt!(leaf.miniscript().as_ref(), miniscript::Tap)
+                        }
+                    }
+                    _ => {}
+                }
+            }
+        }
+    }
+}
+
 /// descriptors with secrets through parse_descriptor / to_string_with_secret.
 fn secret_key_roundtrip(rep: &Report, cen: &mut Census) {
     use miniscript::descriptor::DescriptorSecretKey;
@@ -1043,6 +1176,7 @@ pub fn run(tier: Tier) -> i32 {
     policy_roundtrip(&rep, &mut cen, tier);
     key_roundtrip(&rep, &mut cen);
     secret_key_roundtrip(&rep, &mut cen);
+    key_mix_roundtrip(&rep, &mut cen);
     wallet_policy_roundtrip(&rep, &mut cen);
     let (cs_evals, patterns) = checksum_checks(&rep, &mut cen, &strings, tier);
     rep.merge_counts(&cen);
